@@ -409,7 +409,8 @@ void RescaledHmmLikelihood::computeDForward_() const
 
   for (size_t j = 0; j < nbStates_; j++)
   {
-    dLikelihood_[0][j] = (dTmp[j] * scales_[0] - tmp[j] * dScales_[0]) / pow(scales_[0], 2);
+    // written with ratios: scales_^2 underflows for emissions below about 1e-154
+    dLikelihood_[0][j] = (dTmp[j] - tmp[j] * (dScales_[0] / scales_[0])) / scales_[0];
   }
 
   // Recursion:
@@ -465,7 +466,7 @@ void RescaledHmmLikelihood::computeDForward_() const
 
     for (size_t j = 0; j < nbStates_; j++)
     {
-      dLikelihood_[i][j] = (dTmp[j] * scales_[i] - tmp[j] * dScales_[i]) / pow(scales_[i], 2);
+      dLikelihood_[i][j] = (dTmp[j] - tmp[j] * (dScales_[i] / scales_[i])) / scales_[i];
     }
   }
 
@@ -529,8 +530,9 @@ void RescaledHmmLikelihood::computeD2Forward_() const
 
   for (size_t j = 0; j < nbStates_; j++)
   {
-    d2Likelihood_[0][j] = d2Tmp[j] / scales_[0] - (d2Scales_[0] * tmp[j] + 2 * dScales_[0] * dTmp[j]) / pow(scales_[0], 2)
-        +  2 * pow(dScales_[0], 2) * tmp[j] / pow(scales_[0], 3);
+    // written with ratios: scales_^2 and scales_^3 underflow for tiny emissions
+    const double a = tmp[j] / scales_[0], b = dTmp[j] / scales_[0], c = dScales_[0] / scales_[0], d = d2Scales_[0] / scales_[0];
+    d2Likelihood_[0][j] = d2Tmp[j] / scales_[0] - (d * a + 2 * c * b) + 2 * c * c * a;
   }
 
   // Recursion:
@@ -590,8 +592,8 @@ void RescaledHmmLikelihood::computeD2Forward_() const
 
     for (size_t j = 0; j < nbStates_; j++)
     {
-      d2Likelihood_[i][j] = d2Tmp[j] / scales_[i] - (d2Scales_[i] * tmp[j] + 2 * dScales_[i] * dTmp[j]) / pow(scales_[i], 2)
-          +  2 * pow(dScales_[i], 2) * tmp[j] / pow(scales_[i], 3);
+      const double a = tmp[j] / scales_[i], b = dTmp[j] / scales_[i], c = dScales_[i] / scales_[i], d = d2Scales_[i] / scales_[i];
+      d2Likelihood_[i][j] = d2Tmp[j] / scales_[i] - (d * a + 2 * c * b) + 2 * c * c * a;
     }
   }
 
